@@ -215,9 +215,6 @@ type EndnotePos struct {
 	Val     string   `xml:"w:val,attr"`
 }
 
-// 全局脚注/尾注管理器
-var globalFootnoteManager *FootnoteManager
-
 // FootnoteManager 脚注管理器
 type FootnoteManager struct {
 	nextFootnoteID int
@@ -226,17 +223,19 @@ type FootnoteManager struct {
 	endnotes       map[string]*Endnote
 }
 
-// getFootnoteManager 获取全局脚注管理器
-func getFootnoteManager() *FootnoteManager {
-	if globalFootnoteManager == nil {
-		globalFootnoteManager = &FootnoteManager{
+// getFootnoteManager 获取当前文档的脚注管理器。
+// 管理器属于文档而不是整个进程：否则一个文档的脚注会出现在之后创建的
+// 其他文档的 footnotes.xml 和脚注计数中，并且在多个 goroutine 中处理不同文档会产生数据竞争。
+func (d *Document) getFootnoteManager() *FootnoteManager {
+	if d.footnoteManager == nil {
+		d.footnoteManager = &FootnoteManager{
 			nextFootnoteID: 1,
 			nextEndnoteID:  1,
 			footnotes:      make(map[string]*Footnote),
 			endnotes:       make(map[string]*Endnote),
 		}
 	}
-	return globalFootnoteManager
+	return d.footnoteManager
 }
 
 // DefaultFootnoteConfig 返回默认脚注配置
@@ -261,7 +260,7 @@ func (d *Document) AddEndnote(text string, endnoteText string) error {
 
 // addFootnoteOrEndnote 添加脚注或尾注的通用方法
 func (d *Document) addFootnoteOrEndnote(text string, noteText string, noteType FootnoteType) error {
-	manager := getFootnoteManager()
+	manager := d.getFootnoteManager()
 
 	// 确保脚注/尾注系统已初始化
 	d.ensureFootnoteInitialized(noteType)
@@ -312,7 +311,7 @@ func (d *Document) addFootnoteOrEndnote(text string, noteText string, noteType F
 
 // AddFootnoteToRun 在现有Run中添加脚注引用
 func (d *Document) AddFootnoteToRun(run *Run, footnoteText string) error {
-	manager := getFootnoteManager()
+	manager := d.getFootnoteManager()
 	d.ensureFootnoteInitialized(FootnoteTypeFootnote)
 
 	noteID := strconv.Itoa(manager.nextFootnoteID)
@@ -454,7 +453,7 @@ func (d *Document) initializeEndnotes() {
 
 // createNoteContent 创建脚注/尾注内容
 func (d *Document) createNoteContent(noteID string, noteText string, noteType FootnoteType) error {
-	manager := getFootnoteManager()
+	manager := d.getFootnoteManager()
 
 	// 创建脚注/尾注段落
 	noteParagraph := &Paragraph{
@@ -492,7 +491,7 @@ func (d *Document) createNoteContent(noteID string, noteText string, noteType Fo
 
 // updateFootnotesFile 更新脚注文件
 func (d *Document) updateFootnotesFile() {
-	manager := getFootnoteManager()
+	manager := d.getFootnoteManager()
 
 	footnotes := &Footnotes{
 		Xmlns:     "http://schemas.openxmlformats.org/wordprocessingml/2006/main",
@@ -533,7 +532,7 @@ func (d *Document) updateFootnotesFile() {
 
 // updateEndnotesFile 更新尾注文件
 func (d *Document) updateEndnotesFile() {
-	manager := getFootnoteManager()
+	manager := d.getFootnoteManager()
 
 	endnotes := &Endnotes{
 		Xmlns:    "http://schemas.openxmlformats.org/wordprocessingml/2006/main",
@@ -602,19 +601,19 @@ func (d *Document) addEndnoteRelationship() {
 
 // GetFootnoteCount 获取脚注数量
 func (d *Document) GetFootnoteCount() int {
-	manager := getFootnoteManager()
+	manager := d.getFootnoteManager()
 	return len(manager.footnotes)
 }
 
 // GetEndnoteCount 获取尾注数量
 func (d *Document) GetEndnoteCount() int {
-	manager := getFootnoteManager()
+	manager := d.getFootnoteManager()
 	return len(manager.endnotes)
 }
 
 // RemoveFootnote 删除指定脚注
 func (d *Document) RemoveFootnote(footnoteID string) error {
-	manager := getFootnoteManager()
+	manager := d.getFootnoteManager()
 
 	if _, exists := manager.footnotes[footnoteID]; !exists {
 		return fmt.Errorf("脚注 %s 不存在", footnoteID)
@@ -628,7 +627,7 @@ func (d *Document) RemoveFootnote(footnoteID string) error {
 
 // RemoveEndnote 删除指定尾注
 func (d *Document) RemoveEndnote(endnoteID string) error {
-	manager := getFootnoteManager()
+	manager := d.getFootnoteManager()
 
 	if _, exists := manager.endnotes[endnoteID]; !exists {
 		return fmt.Errorf("尾注 %s 不存在", endnoteID)
